@@ -77,6 +77,20 @@ def run_one(prop, case, st):
         return v
     except Decline as d:
         st.decline(d.bucket)
+    except HarnessError:
+        raise
+    except Exception as e:
+        # an exception raised inside funsor that the engine did not classify is a
+        # decline of funsor (never a violation); anything else is a harness bug.
+        import traceback
+
+        tb = traceback.extract_tb(e.__traceback__)
+        if tb and "/funsor/" in tb[-1].filename:
+            from vf.core import innermost_funsor_frame
+
+            st.decline("uncaught:" + innermost_funsor_frame(e))
+        else:
+            raise
     return None
 
 
